@@ -41,6 +41,7 @@ def run(ctx):
     vlib.note_events(ctx, g + t)
     vlib.call_history_model(ctx)
     vlib.call_histories(ctx, binp, t, ["path.Parse", "path.String"], "Bip32PathTrace", "real ParsePath/String disagrees with the Bip32Path specification")
+    vlib.call_concurrent(ctx, binp, t, ["path.Parse", "path.String"], "Bip32PathTrace", "real ParsePath/String disagrees with the Bip32Path specification")
     bad = vlib.validate_trace(ctx, "Bip32PathTrace", g + t)
     for e in vlib.reproduce(ctx, binp, bad, history=g + t):
         ctx.bad.append(dict(event=e, reason="real ParsePath/String disagrees with the Bip32Path specification"))
